@@ -57,6 +57,10 @@ Definition parse (t : list tok) : cmd :=
       match args with [TN n] => CmdOp (OFill (zN n)) | _ => CmdBad end
     else if name =? "unfill" then
       match args with [TN n] => CmdOp (OUnfill (zN n)) | _ => CmdBad end
+    else if name =? "backfill" then
+      match args with [TN n] => CmdOp (OBackfill (zN n)) | _ => CmdBad end
+    else if name =? "unbackfill" then
+      match args with [TN n] => CmdOp (OUnbackfill (zN n)) | _ => CmdBad end
     else if name =? "check" then CmdOp OCheck
     else if name =? "dump" then CmdDump
     else if name =? "pool_new" then
@@ -80,7 +84,7 @@ Definition observe (st : state) (o : op) (st' : state) : list tok :=
       tN (nb s'); tn_bool (can_accept s') ]
   | OClose t => [ tn_bool (lmem t (live st)); tN (nb s'); tn_bool (can_accept s') ]
   | OTrack t k ov => if lmem t (live st) then [ tn_bool (at_limit s t k ov) ] else [TS "dead"]
-  | OFill _ | OUnfill _ => [ tN (slab s') ]
+  | OFill _ | OUnfill _ | OBackfill _ | OUnbackfill _ => [ tN (slab s') ]
   | OCheck => [ tn_bool (snd (check_limits s)); tn_bool (can_accept s') ]
   | _ => []
   end.
